@@ -255,3 +255,151 @@ Proof.
     + apply (itemsS_rep ind2 t2 tt2 r2); assumption.
 Qed.
 End ItemsS.
+
+(** ================= rules of the grammar in the calculus ================= *)
+From Coq Require Import ZifyBool.
+Notation Rx := (stop_ok X_body).
+Notation TT := (fun _ : str => True).
+
+Lemma RsS_true : forall items rest, RsS TT items rest.
+Proof. induction items as [|x r IH]; intro rest; cbn [RsS]; [exact I | split; [exact I | apply IH]]. Qed.
+
+Lemma testS pre cond rest : cond_ok cond = true -> parsedS (PRef L_TEST) pre cond (10 :: rest) [TNode L_TEST cond []].
+Proof.
+  intro H. apply parsed_S. eexists. split; [apply test_parses, H|].
+  cbn [map]. rewrite (annotate_node_eq pre cond (10 :: rest)) by reflexivity. rewrite trim_cond by exact H. reflexivity.
+Qed.
+
+Lemma nlaltS K pre rest : (forall pos r, EV K AtNon pos (10 :: r) (POk (S pos) r [])) -> parsedS K pre [10] rest [].
+Proof. intro H. apply parsed_S. exists []. split; [|reflexivity]. evq (H (length pre) rest). Qed.
+
+Lemma cond_headS R K kw ALT pre cond rest :
+  lookup R (g_rules l_grammar) = Some (MNormal, PSeq (PRef K) (PSeq (PRef L_TEST) ALT)) -> opt_eqb (g_ws l_grammar) R = false ->
+  lookup K (g_rules l_grammar) = Some (MSilent, PStr kw) -> opt_eqb (g_ws l_grammar) K = false ->
+  (forall pos r, EV ALT AtNon pos (10 :: r) (POk (S pos) r [])) ->
+  cond_ok cond = true ->
+  parsedS (PRef R) pre (kw ++ cond ++ [10]) rest [TNode R (trim (kw ++ cond ++ [10])) [TNode L_TEST cond []]].
+Proof.
+  intros HR HwR HK HwK Halt Hc.
+  apply (refS R _ pre (kw ++ cond ++ [10]) rest ([] ++ [TNode L_TEST cond []] ++ []) HR HwR).
+  apply seqS'.
+  - eapply silentS; [exact HK | exact HwK | apply strS].
+  - rewrite <- app_assoc. apply cond_starts, Hc.
+  - apply seqS'; [exact (testS _ cond rest Hc) | reflexivity | apply nlaltS, Halt].
+Qed.
+
+Definition while_head_t (cond : str) := TNode L_WHILE_HEAD (trim (s_while ++ cond ++ [10])) [TNode L_TEST cond []].
+Definition if_head_t (cond : str) := TNode L_IF_HEAD (trim (s_if ++ cond ++ [10])) [TNode L_TEST cond []].
+
+Lemma while_headS cond : cond_ok cond = true ->
+  forall pre rest, parsedS (PRef L_WHILE_HEAD) pre (s_while ++ cond ++ [10]) rest [while_head_t cond].
+Proof.
+  intros H pre rest.
+  apply (cond_headS L_WHILE_HEAD L_KW_WHILE s_while (PAlt (PRef L_DUMMY_DO) NL)); try reflexivity; [|exact H].
+  intros pos r. apply then_do_fail.
+Qed.
+
+Lemma if_headS cond : cond_ok cond = true ->
+  forall pre rest, parsedS (PRef L_IF_HEAD) pre (s_if ++ cond ++ [10]) rest [if_head_t cond].
+Proof.
+  intros H pre rest.
+  apply (cond_headS L_IF_HEAD L_KW_IF s_if (PAlt (PRef L_DUMMY_THEN) NL)); try reflexivity; [|exact H].
+  intros pos r. apply then_do_fail.
+Qed.
+
+Lemma for_varS pre var rest : wfp_var var = true -> parsedS (PRef L_FOR_VAR) pre var (32 :: rest) [TNode L_FOR_VAR var []].
+Proof.
+  intro H. apply parsed_S. eexists. split; [apply for_var_parses, H|].
+  cbn [map]. rewrite (annotate_node_eq pre var (32 :: rest)) by reflexivity. rewrite var_trim by exact H. reflexivity.
+Qed.
+
+Lemma var_starts var rest : wfp_var var = true -> starts_blank (var ++ rest) = false.
+Proof.
+  intro Hv. destruct var as [|c v]; [discriminate|]. cbn [wfp_var] in Hv. apply andb_prop in Hv as [Hc _].
+  cbn. apply blank_ws, alnum_not_ws. unfold is_alnum_us. apply orb_prop in Hc as [Hc|Hc]; rewrite Hc; lia.
+Qed.
+
+Definition for_head_t (var words : str) :=
+  TNode L_FOR_HEAD (trim (s_for ++ var ++ s_in ++ words ++ [10]))
+    [TNode L_FOR_INIT (trim (var ++ s_in ++ words ++ [10])) [TNode L_FOR_VAR var []; TNode L_TEST words []]].
+
+Lemma for_headS var words : wfp_var var = true -> cond_ok words = true ->
+  forall pre rest, parsedS (PRef L_FOR_HEAD) pre (s_for ++ var ++ s_in ++ words ++ [10]) rest [for_head_t var words].
+Proof.
+  intros Hv Hw pre rest.
+  apply (refS L_FOR_HEAD _ pre (s_for ++ (var ++ [32] ++ ([105; 110] ++ [32] ++ (words ++ [10])))) rest
+           ([] ++ [TNode L_FOR_INIT (trim (var ++ [32] ++ ([105; 110] ++ [32] ++ (words ++ [10]))))
+                     ([TNode L_FOR_VAR var []] ++ [] ++ [TNode L_TEST words []] ++ [])]) eq_refl eq_refl).
+  apply seqS'.
+  - eapply silentS; [reflexivity | reflexivity | apply strS].
+  - rewrite <- app_assoc. apply var_starts, Hv.
+  - apply (refS L_FOR_INIT _ _ _ _ _ eq_refl eq_refl).
+    apply seqS; [exact (for_varS _ var _ Hv) | reflexivity | reflexivity |].
+    apply seqS; [apply strS | reflexivity | rewrite <- app_assoc; apply cond_starts, Hw |].
+    apply seqS'; [exact (testS _ words rest Hw) | reflexivity | apply nlaltS].
+    intros pos r. apply then_do_fail.
+Qed.
+
+Lemma kw_doneS pre rest : parsedS (PRef L_KW_DONE) pre (s_done ++ [10]) rest [].
+Proof. apply parsed_S. exists []. split; [|reflexivity]. evq (kw_done_ok (length pre) rest). Qed.
+
+Lemma kw_fiS pre rest : parsedS (PRef L_KW_FI) pre (s_fi ++ [10]) rest [].
+Proof. apply parsed_S. exists []. split; [|reflexivity]. evq (kw_fi_ok (length pre) rest). Qed.
+
+Lemma kw_elseS pre rest : parsedS (PRef L_KW_ELSE) pre (s_else ++ [10]) rest [TNode L_KW_ELSE s_else []].
+Proof.
+  apply parsed_S. exists [Node L_KW_ELSE (length pre) (length pre + length (s_else ++ [10%N])) []]. split.
+  { eapply EV_eq; [exact (kw_else_ok (length pre) rest) | reflexivity | reflexivity |].
+    replace (S (length pre + 4))%nat with (length pre + length (s_else ++ [10%N]))%nat by (change (length (s_else ++ [10%N])) with 5%nat; lia). reflexivity. }
+  cbn [map]. rewrite (annotate_node_eq pre (s_else ++ [10]) rest) by reflexivity. reflexivity.
+Qed.
+
+(** EXP_BODY over a non-empty sequence of indented items; [j] = the blanks before the closing keyword *)
+Lemma bodyS ind t tt r j : blanks j -> Forall (itemS_ok X_body TT) ((ind, t, tt) :: r) ->
+  forall pre rest, Rx rest ->
+  parsedS (PRef L_EXP_BODY) pre (t ++ catI r ++ j) rest [TNode L_EXP_BODY (trim (t ++ catI r)) (tt :: map it_tt r)].
+Proof.
+  intros Hj H pre rest HR.
+  assert (Etr : trim (t ++ catI r ++ j) = trim (t ++ catI r)).
+  { rewrite <- (trim_app_blank (t ++ catI r) j Hj). f_equal. napp. }
+  rewrite <- Etr. apply (refS L_EXP_BODY _ _ _ _ _ eq_refl eq_refl).
+  apply (itemsS_plus X_body TT ind); [exact Hj | exact H | apply RsS_true | exact HR].
+Qed.
+
+(** HEAD ~ EXP_BODY : IF_IF_BR, IF_ELSE_BR *)
+Lemma brS R H htext htree ind t tt r j :
+  lookup R (g_rules l_grammar) = Some (MNormal, PSeq (PRef H) (PRef L_EXP_BODY)) -> opt_eqb (g_ws l_grammar) R = false ->
+  (forall pre rest, parsedS (PRef H) pre htext rest [htree]) ->
+  blanks j -> Forall (itemS_ok X_body TT) ((ind, t, tt) :: r) ->
+  forall pre rest, Rx rest ->
+  parsedS (PRef R) pre (htext ++ ind ++ t ++ catI r ++ j) rest
+    [TNode R (trim (htext ++ ind ++ t ++ catI r)) [htree; TNode L_EXP_BODY (trim (t ++ catI r)) (tt :: map it_tt r)]].
+Proof.
+  intros HR Hw Hh Hj Hi pre rest HRx.
+  assert (Etr : trim (htext ++ ind ++ t ++ catI r ++ j) = trim (htext ++ ind ++ t ++ catI r)).
+  { rewrite <- (trim_app_blank (htext ++ ind ++ t ++ catI r) j Hj). f_equal. napp. }
+  rewrite <- Etr.
+  pose proof Hi as Hi'. inversion Hi' as [|x l [Hind [Hs _]] _]; subst. cbn [it_ind it_txt fst snd] in *.
+  apply (refS R _ pre _ rest ([htree] ++ [TNode L_EXP_BODY (trim (t ++ catI r)) (tt :: map it_tt r)]) HR Hw).
+  apply seqS; [apply Hh | exact Hind | rewrite <- !app_assoc; apply Hs | apply (bodyS ind); assumption].
+Qed.
+
+(** (SOI)? ~ HEAD ~ EXP_BODY ~ KW_DONE : EXP_FOR, EXP_WHILE *)
+Lemma loopS R H htext htree ind t tt r j :
+  lookup R (g_rules l_grammar) = Some (MNormal, PSeq (POpt PSoi) (PSeq (PRef H) (PSeq (PRef L_EXP_BODY) (PRef L_KW_DONE)))) ->
+  opt_eqb (g_ws l_grammar) R = false ->
+  (forall pre rest, parsedS (PRef H) pre htext rest [htree]) ->
+  (forall rest, starts_blank (htext ++ rest) = false) ->
+  blanks j -> Forall (itemS_ok X_body TT) ((ind, t, tt) :: r) ->
+  forall pre rest,
+  parsedS (PRef R) pre (htext ++ ind ++ (t ++ catI r ++ j) ++ s_done ++ [10]) rest
+    [TNode R (trim (htext ++ ind ++ (t ++ catI r ++ j) ++ s_done ++ [10]))
+       [htree; TNode L_EXP_BODY (trim (t ++ catI r)) (tt :: map it_tt r)]].
+Proof.
+  intros HR Hw Hh Hhs Hj Hi pre rest.
+  pose proof Hi as Hi'. inversion Hi' as [|x l [Hind [Hs _]] _]; subst. cbn [it_ind it_txt fst snd] in *.
+  apply (refS R _ pre _ rest ([htree] ++ [TNode L_EXP_BODY (trim (t ++ catI r)) (tt :: map it_tt r)] ++ []) HR Hw).
+  apply seq0S; [apply opt_soi | rewrite <- app_assoc; apply Hhs |].
+  apply seqS; [apply Hh | exact Hind | rewrite <- !app_assoc; apply Hs |].
+  apply seqS'; [apply (bodyS ind); [exact Hj | exact Hi | exact (stop_done rest)] | reflexivity | apply kw_doneS].
+Qed.
